@@ -28,10 +28,13 @@ import (
 	"github.com/dadrus/heimdall/internal/handler/envoyextauth/grpcv3"
 	"github.com/dadrus/heimdall/internal/handler/proxy"
 	"github.com/dadrus/heimdall/internal/heimdall"
+	"github.com/dadrus/heimdall/internal/keyholder"
+	"github.com/dadrus/heimdall/internal/otel/metrics/certificate"
 	"github.com/dadrus/heimdall/internal/rules"
 	rulecfg "github.com/dadrus/heimdall/internal/rules/config"
 	"github.com/dadrus/heimdall/internal/rules/mechanisms"
 	"github.com/dadrus/heimdall/internal/rules/rule"
+	"github.com/dadrus/heimdall/internal/watcher"
 )
 
 // SwapExec lets the three servers be built once while rules are replaced per case.
@@ -347,4 +350,12 @@ func SortedHeader(h http.Header) string {
 	}
 
 	return sb.String()
+}
+
+// RealFactory builds the production mechanism factory over the given catalogue.
+func RealFactory(p *config.MechanismPrototypes) (mechanisms.MechanismFactory, error) {
+	conf := &config.Configuration{Prototypes: p}
+
+	return mechanisms.NewMechanismFactory(conf, zerolog.Nop(), &watcher.NoopWatcher{}, keyholder.VerifNewRegistry(),
+		certificate.NewObserver())
 }
